@@ -92,9 +92,12 @@ func GenCase(r *rand.Rand, seed int64, kind string) Case {
 		if cs.Out.Plain && r.Intn(3) == 0 {
 			cs.Out.FailPlan = "rand:30"
 		}
-	case "dlq":
+	case "dlq", "dlq-nosplit":
+		// "dlq-nosplit" (C04): no split chains - split children that wait in a dead
+		// queue alias their recycled parent (listed C05 finding) and can kill the
+		// process, which C04 would have to count as a wedge
 		cs.Chain = []ActionSpec{script}
-		if r.Intn(3) == 0 {
+		if r.Intn(3) == 0 && kind == "dlq" {
 			cs.Chain = []ActionSpec{script, split}
 			cs.SplitPct = 25
 		}
@@ -105,7 +108,7 @@ func GenCase(r *rand.Rand, seed int64, kind string) Case {
 		if r.Intn(4) > 0 {
 			cs.DLQ = &OutSpec{Workers: pickInt(r, 1, 2), Count: pickInt(r, 1, 4, 16), FlushMs: pickInt(r, 20, 150), Plain: true, FailPlan: "none"}
 		}
-		if DirectedIndex >= 0 && DirectedIndex%3 == 0 {
+		if DirectedIndex >= 0 && DirectedIndex%3 == 0 && kind == "dlq" {
 			// every third case: split parents and their children share exhausted
 			// batches that go to a dead queue
 			cs.Chain = []ActionSpec{script, split}
